@@ -1,4 +1,5 @@
 import BigtoolsModel.Tiler2
+import BigtoolsModel.FiltersGen
 import BigtoolsModel.ZoomLevels
 import BigtoolsModel.Tiler3
 import BigtoolsModel.ZoomQueryBytes
@@ -83,3 +84,14 @@ theorem C07_listed_levels_strictly_increasing (cands kept : List Nat) (hc : Stri
   listed_levels_strictly_increasing cands kept hc hk
 
 end ZL
+
+namespace BBI
+open CD
+
+/-- **The code's own zoom-record filter** (`get_zoom_block_values`, both byte orders), regenerated from bbiread.rs on every
+    run, is the `zKeep` of the zoom query theorem. -/
+theorem C07_source_zoom_filter_is_zKeep (c qs qe : Nat) (r : ZRec) :
+    Gen.zoom_keep_0 r.chrom c r.start r.stop qs qe = zKeep c qs qe r ∧ Gen.zoom_keep_1 r.chrom c r.start r.stop qs qe = zKeep c qs qe r :=
+  ⟨gen_zoom_filter_0 c qs qe r, gen_zoom_filter_1 c qs qe r⟩
+
+end BBI
